@@ -78,11 +78,20 @@ def run_suite(ctx, name, cases, report_all_classes=True, owned_only=True, hooks=
     t0 = time.time()
     triples = [(k, c.prog, c.lines) for k, c in enumerate(cases)]
     traces, extras = asmrun.run(triples, hooks=hooks)
+    if len(traces) < len(cases):
+        ctx.notes.append("suite %s cut short after repeated watchdog timeouts: %d of %d cases run" % (name, len(traces), len(cases)))
+        cases = cases[:len(traces)]
     for t, c in zip(traces, cases):
         t["focus"] = c.focus
-    adapter = [extras[t["id"]]["adapter"] for t in traces if extras[t["id"]]["adapter"]]
-    if adapter:
-        raise tlc.MachineryError("impl adapter disagrees with the public listing: %s" % adapter[0])
+    # the listing (public API) and the per-statement bytes read through the adapter must tell the same story; a disagreement
+    # is a fault of the listing the user sees (owned by C02), reported per case - the case itself is not judged further
+    for t in traces:
+        msg = extras[t["id"]]["adapter"]
+        if msg:
+            t["outcome"] = "ok-listing-mismatch"
+            if ctx.prop == "C02":
+                ctx.report({"clause": "listing", "class": {"form": "listing"}, "symptom": {"why": msg.rsplit(" at ", 1)[0]}},
+                           {"kind": "asm", "lines": cases[t["id"]].lines, "what": msg})
     bad_render = [t["id"] for t in traces if t["outcome"] == "stmtcount" and cases[t["id"]].prog]
     if bad_render:
         k = bad_render[0]
